@@ -19,6 +19,8 @@ def run(ctx):
     prog = ctx.prog
     E = prog.enums
     eff = Effects(prog)
+    from rules.C04 import tail_rules
+    tail_rules(ctx, prog)      # TAIL-STALE / TAILER-DATAEND: stale chunks after the data in SFM_RDWR mode are not counted as audio
     f, rows = seek_table(prog)
     ctx.rule('SEEK-UPDATE', 'per (whence, open mode, offset class): pointers written by sf_seek on feasible paths equal the documented set; last_op assigned; no early return when both pointers must move', floor=40)
     for (wh, mode, off), got in sorted(rows.items()):
